@@ -811,7 +811,7 @@ def guess_fileformat(fileorname, fileformat=None):
         else:
             name = fileorname.name
         return os.path.splitext(name)[-1][1:]
-    except (AttributeError, ValueError, IndexError):
+    except (AttributeError, TypeError, ValueError, IndexError):
         raise ValueError(
             "Cannot guess a file format from arguments. Please specify the format manually.")
 
@@ -849,7 +849,8 @@ def _process_graph_io_arguments(iofile, graph_type, file_format, multi_edges):
     if file_format == 'autodetect':
         try:
             extension = os.path.splitext(iofile.name)[-1][1:]
-        except AttributeError:
+        except (AttributeError, TypeError):
+            # no name, or a name which is not a path (e.g. a file descriptor)
             raise ValueError(
                 "Cannot guess a file format from an IO stream with no name. Please specify the format manually."
             )
